@@ -457,6 +457,8 @@ def current_termination(spec, si):
     for op in spec["ops"][:si]:
         if op[0] == "settermination":
             t = op[1]
+        elif op[0] == "step" and len(op) > 1 and op[1].get("termination") is not None:
+            t = op[1]["termination"]
     return t
 
 
@@ -483,7 +485,9 @@ def mon_c05(spec, rec):
             if op[3]:
                 prev = rec.snaps[si - 1] if si else None
                 g0 = prev["generations"] if prev else 0
-                e0 = prev["evaluations"] if prev else 0
+                # the evaluations made so far: the calls the user's cost really received (C04 ties the solver's counter to
+                # them; DE2 re-reads its counter from the evaluation monitor: known findings of C04)
+                e0 = (prev["evaluations"] if solver == "DE2" else prev["n_cost_calls"]) if prev else 0
                 new_base = (g0, e0, op[1], op[2]); total = None
             else:
                 total = (op[1], op[2]); new_base = None
@@ -509,7 +513,7 @@ def mon_c05(spec, rec):
             else:
                 # the EvaluationLimits CONDITION by its documented inequality (iterations >= generations or
                 # fcalls >= evaluations), evaluated here - not by the code under test
-                for g, e in evl_conditions(current_termination(spec, si)):
+                for g, e in evl_conditions(current_termination(spec, si + 1) if (len(op) > 1 and op[1].get("termination") is not None) else current_termination(spec, si)):
                     if (e is not None and pre["evaluations"] >= e) or (g is not None and pre["generations"] >= g):
                         reasons.append("EvaluationLimits(generations=%r, evaluations=%r) holds at generations=%d, evaluations=%d" % (g, e, pre["generations"], pre["evaluations"]))
             if reasons and ran:
